@@ -145,3 +145,14 @@ def register(add, NOTE):
         "Known finding: insulated thick wires (stale i6).",
         "Rocq proof (parser/printer round trip for the prompt automaton) + vm_compute correspondence on the real text + independent re-reading oracle",
         "DESIGN.md §6 C18", note=NOTE + PART)
+    add("C20",
+        "Theorems: for every assignment of admissible faults to the 21 stages of main (parsing and constructing each kind of option, "
+        "transformations, media, Mininec(), sources, loads, attachments, distributed loads, angles, near field, compute, fields, report) the "
+        "run ends in the report or in the diagnostic of the first failing stage, never in an uncaught exception; the same table before the "
+        "repairs is refuted by a witness (frequency zero); the frequency guard 0 < f < 1e150 keeps every constant of the frequency setter "
+        "(translator-extracted) positive and below 1e300 (interval). Tie: stage `main` provokes every (stage, exception kind) row through the "
+        "real main. The oracle mutates valid command lines (zero, negative, huge, denormal, non-finite values, wrong arity, unknown tags, "
+        "duplicates, contradictions) and classifies the ending. PARTIAL: the table is transcribed, not translated. 21 fix: commits repaired "
+        "what the oracle found.",
+        "Rocq proof (exception-flow table, numeric guard by interval arithmetic) + row-by-row correspondence on the real main + mutation oracle",
+        "DESIGN.md §6 C20, App. C", note=NOTE + PART)
